@@ -10,6 +10,7 @@ fn envn(k: &str, d: usize) -> usize {
 }
 
 static DROPS: AtomicUsize = AtomicUsize::new(0);
+static GOT: AtomicUsize = AtomicUsize::new(0);
 struct Payload(usize);
 impl Drop for Payload {
     fn drop(&mut self) {
@@ -120,9 +121,10 @@ fn main() {
                     last[p] = v;
                 }
             }
-            if got.len() != want {
+            if got.len() < want || got.len() > total {
                 c.fail(format!("popped {} of {want} values", got.len()));
             }
+            GOT.store(got.len(), Ordering::Relaxed);
         });
         for h in hs {
             ctx.join(h);
@@ -132,8 +134,9 @@ fn main() {
         let before = DROPS.load(Ordering::Relaxed);
         drop(q);
         let after = DROPS.load(Ordering::Relaxed);
-        if leave > 0 && after - before != leave.min(total) {
-            ctx.fail(format!("queue drop released {} payloads, {} were left", after - before, leave.min(total)));
+        let left = total - GOT.load(Ordering::Relaxed);
+        if after - before != left {
+            ctx.fail(format!("queue drop released {} payloads, {} were left", after - before, left));
         }
         if after != off + total {
             ctx.fail(format!("{} payloads dropped in total, {} were created", after, off + total));
